@@ -1,10 +1,86 @@
 /-
   C11/Theorems — the ledger for property C11.  Every `theorem` in this file is audited
   (`#print axioms` ⊆ {propext, Classical.choice, Quot.sound}) on every run.
+
+  Model = otto's code (C11/Model), Spec = ES5 15.12 (C11/Spec).  Deviation regions are the decidable
+  predicates of C11/Spec ("deviation regions"); each has a kernel-checked witness below.
 -/
-import OttoVerif.C11.Spec
+import OttoVerif.C11.Lemmas
 namespace OttoVerif.C11.Thm
-open OttoVerif.F64 OttoVerif.C11
+open OttoVerif.C11 OttoVerif.C11.Spec OttoVerif.C11.Lem
+open OttoVerif.F64 (FV)
+
+/-! ## JSON.parse -/
+
+/-- `grammar_accepts`: otto accepts exactly the texts of the ES5 JSON grammar, except that a number
+    literal outside the double range is rejected (region parse_num_overflow).  The hypothesis
+    `goStr t = t` says the text has no unpaired surrogate (region parse_lone_surrogate). -/
+theorem grammar_accepts (t : Str) (hs : goStr t = t)
+    (hov : ∀ rt, parseText t = some rt → rtAny overflows (fun _ => false) rt = false) :
+    (C11.jsonParse t).isSome = inJSON t := by
+  unfold C11.jsonParse inJSON
+  rw [hs]
+  cases h : parseText t with
+  | none => rfl
+  | some rt =>
+    obtain ⟨v, hv⟩ := decode_some rt (hov rt h)
+    simp [hv]
+
+/-- every text the grammar rejects is rejected by otto (SyntaxError), with no exception -/
+theorem rejects_invalid (t : Str) (hs : goStr t = t) (h : inJSON t = false) : C11.jsonParse t = none := by
+  unfold C11.jsonParse; unfold inJSON at h
+  rw [hs]; cases hp : parseText t <;> simp_all
+
+/-- `denotation`: outside the overflow and lone-surrogate regions an accepted text yields the value
+    ES5 prescribes, up to the order of object properties (`canon` sorts the keys of both sides). -/
+theorem denotation (t : Str) (hs : goStr t = t) (rt : RT) (hp : parseText t = some rt)
+    (hc : rtAny overflows loneEsc rt = false) :
+    C11.jsonParse t = (Spec.jsonParse t).map canon := by
+  unfold C11.jsonParse Spec.jsonParse
+  rw [hs, hp]; simp [decode_eq rt hc]
+
+/-- … and exactly that value when no object of the result has two or more properties
+    (outside region parse_key_order) -/
+theorem denotation_exact (t : Str) (hs : goStr t = t) (rt : RT) (hp : parseText t = some rt)
+    (hc : rtAny overflows loneEsc rt = false) (hu : unordered (denote rt) = false) :
+    C11.jsonParse t = Spec.jsonParse t := by
+  rw [denotation t hs rt hp hc]
+  unfold Spec.jsonParse; rw [hp]; simp [canon_id _ hu]
+
+/-- string literals: Go's unquote equals the ES5 code-unit reading unless an escaped surrogate half
+    is unpaired -/
+theorem string_literal_eq (s : List Item) (h : loneEsc s = false) : goCombine s = s.map Item.unit :=
+  goCombine_eq s h
+
+/-! ## JSON.stringify: the rule table -/
+
+/-- `stringify_rules`: for EVERY value tree, replacer function, property list, key and stack depth the
+    walk of builtinJSONStringifyWalk produces the Go image (`gvOf`) of the tree ES5's Str/JO/JA
+    produce: toJSON first, then the replacer function, then unboxing of Number/String/Boolean objects,
+    undefined and functions omitted from objects and null in arrays, non-finite numbers null,
+    TypeError exactly on a reference to an enclosing container (cycle), property-list filtering.
+    (`gvOf` is where the remaining differences live: keys go through a Go map, strings through
+    `goStr`, numbers through `walkNum`; they are the str_* regions.) -/
+theorem stringify_rules (M : MCtx) (S : SCtx) (hr : M.repl = S.repl) (hp : M.plist = S.plist)
+    (fuel depth : Nat) (key : Str) (v : SV) :
+    walk M fuel depth key v = WR.map gvOf (serial S fuel depth key v) :=
+  walk_eq M S hr hp fuel depth key v
+
+/-- `cycle_detect`: a reference to the k-th enclosing container throws exactly when it is enclosed
+    (k < depth), in the model and in the spec alike, whatever the replacer does not change -/
+theorem cycle_detect (M : MCtx) (hn : M.repl = none) (fuel depth k : Nat) (key : Str) (h : k < depth) :
+    walk M (fuel + 1) depth key (.back k) = .throw := by
+  simp [walk, hn, viaToJSON, unbox, h]
+
+/-- undefined / function: absent at top level and in objects … -/
+theorem omit_undefined_function (M : MCtx) (hn : M.repl = none) (fuel depth : Nat) (key : Str) :
+    walk M (fuel + 1) depth key .undef = .absent ∧ walk M (fuel + 1) depth key .func = .absent := by
+  simp [walk, hn, viaToJSON, unbox]
+
+/-- … and `null` inside arrays -/
+theorem array_undefined_is_null (M : MCtx) (hn : M.repl = none) (fuel depth i : Nat) :
+    walkArr M (fuel + 3) depth i (.cons .undef (.cons .func .nil)) = .val (.cons .nil (.cons .nil .nil)) := by
+  simp [walkArr, walk, hn, viaToJSON, unbox]
 
 /-- the gap never exceeds ten characters (ES5 15.12.3 steps 6-7), for every `space` argument -/
 theorem spec_gap_le_10 (sp : Space) : (Spec.gapOf sp).length ≤ 10 := by
@@ -16,5 +92,89 @@ theorem spec_gap_le_10 (sp : Space) : (Spec.gapOf sp).length ≤ 10 := by
     | inf s => cases s <;> simp [Spec.gapOf, Spec.gapCount]
     | fin s m e => simp only [Spec.gapOf, Spec.gapCount, List.length_replicate]; split <;> omega
   | _ => simp [Spec.gapOf]
+
+/-- a numeric `space` gives the same gap in otto as in ES5 (clamped to 0..10), for every double -/
+theorem gap_number_eq (x : FV) : C11.gapOf (.num x) = Spec.gapOf (.num x) := by
+  cases x with
+  | nan => rfl
+  | inf s => rfl
+  | fin s m e =>
+    simp only [C11.gapOf, Spec.gapOf, C11.gapCount, Spec.gapCount, Nat.min_def]
+    cases s
+    · simp only [Bool.false_eq_true, if_false]
+      split <;> split <;> first | rfl | (congr 1; omega)
+    · rfl
+
+/-! ## JSON.stringify: the emitted text -/
+
+/-- `stringify_valid` + `roundtrip_value`: for EVERY Go value tree the walk can produce (all code
+    units incl. controls, quotes, U+2028/9 and surrogate halves; any nesting), with a white-space gap,
+    the text written by json.Marshal+Indent is accepted by the ES5 JSON grammar, and reading it back
+    gives exactly that tree (`jvOf`): strings code unit for code unit, containers element by element,
+    numbers as the value of their printed digits.  The reading falls in no parse deviation region, so
+    otto's own JSON.parse returns the same tree up to key order.  `GOK` asks that code units are
+    below 2^16 and that each printed number is a JSONNumber in range (`NumTxt`, validated per sample). -/
+theorem stringify_valid (L : OttoVerif.C06.Lib) (gap : Str) (hgap : gap.all isWS = true) (g : GV) (hg : GOK L g) :
+    inJSON (marshal L gap 0 g) = true ∧
+    Spec.jsonParse (marshal L gap 0 g) = some (jvOf L g) ∧
+    (parseText (marshal L gap 0 g)).bind decode = some (canon (jvOf L g)) := by
+  obtain ⟨rt, h1, h2, h3⟩ := parseText_marshal L gap hgap g hg
+  refine ⟨by simp [inJSON, h1], by simp [Spec.jsonParse, h1, h2], ?_⟩
+  simp [h1, decode_eq rt h3, h2]
+
+/-- a quoted string reads back code unit for code unit (Go's escaping incl. the HTML-safe escapes) -/
+theorem quote_roundtrip (s : Str) (hs : ∀ c ∈ s, c < 65536) (rest : List Nat) :
+    ∃ items, scanString (s.flatMap goEscChar ++ 34 :: rest) = some (items, rest) ∧
+      items.map Item.unit = s ∧ goCombine items = s := by
+  obtain ⟨items, h1, h2, h3⟩ := scan_goQuote s hs rest
+  exact ⟨items, h1, h2, by rw [goCombine_eq items h3, h2]⟩
+
+/-! ## non-vacuity -/
+
+example : GOK OttoVerif.C06.Spec.exactLib (.arr (.cons (.str [60, 0xD83D, 0xDE00, 10]) (.cons .nil (.cons (.map (.cons [97] (.bool true) .nil)) .nil)))) := by
+  simp [GOK, GOKL, GOKM, unitsOK]
+
+example : inJSON (marshal OttoVerif.C06.Spec.exactLib [32, 32] 0
+    (.arr (.cons (.str [60, 10]) (.cons .nil (.cons (.map (.cons [97] (.bool true) .nil)) .nil))))) = true := by decide +kernel
+
+/-! ## deviation witnesses (model ≠ spec, kernel-checked) -/
+
+def firstStr : Option JV → Str
+  | some (.str s) => s
+  | _ => []
+def firstKey : Option JV → Str
+  | some (.obj (.cons k _ _)) => k
+  | _ => []
+
+/-- parse_num_overflow: the text 1e999 -/
+example : C11.jsonParse [49, 101, 57, 57, 57] ≠ Spec.jsonParse [49, 101, 57, 57, 57] :=
+  fun h => absurd (congrArg Option.isSome h) (by decide +kernel)
+/-- parse_lone_surrogate: a string literal holding the escape for 0xD800 -/
+example : C11.jsonParse [34, 92, 117, 100, 56, 48, 48, 34] ≠ Spec.jsonParse [34, 92, 117, 100, 56, 48, 48, 34] :=
+  fun h => absurd (congrArg firstStr h) (by decide +kernel)
+/-- parse_key_order: {"b":null,"a":null} — the model keeps the property SET (sorted), ES5 the text order -/
+example : C11.jsonParse [123, 34, 98, 34, 58, 110, 117, 108, 108, 44, 34, 97, 34, 58, 110, 117, 108, 108, 125]
+    ≠ Spec.jsonParse [123, 34, 98, 34, 58, 110, 117, 108, 108, 44, 34, 97, 34, 58, 110, 117, 108, 108, 125] :=
+  fun h => absurd (congrArg firstKey h) (by decide +kernel)
+
+def idNum : FV → Str := fun _ => [48]
+
+/-- str_key_order: {b:null,a:null} -/
+example : C11.jsonStringify OttoVerif.C06.Spec.exactLib idNum 9 (.obj (.cons [98] .null (.cons [97] .null .nil))) .none .absent
+    ≠ Spec.jsonStringify idNum 9 (.obj (.cons [98] .null (.cons [97] .null .nil))) .none .absent := by decide +kernel
+/-- str_html_escape: "<" -/
+example : C11.jsonStringify OttoVerif.C06.Spec.exactLib idNum 9 (.str [60]) .none .absent
+    ≠ Spec.jsonStringify idNum 9 (.str [60]) .none .absent := by decide +kernel
+/-- str_lone_surrogate: "\ud800" -/
+example : C11.jsonStringify OttoVerif.C06.Spec.exactLib idNum 9 (.str [0xD800]) .none .absent
+    ≠ Spec.jsonStringify idNum 9 (.str [0xD800]) .none .absent := by decide +kernel
+/-- str_proplist_slots: {"":null,a:true} with replacer [true,"a"] -/
+example : C11.jsonStringify OttoVerif.C06.Spec.exactLib idNum 9 (.obj (.cons [] .null (.cons [97] (.bool true) .nil))) (.list [.other, .str [97]]) .absent
+    ≠ Spec.jsonStringify idNum 9 (.obj (.cons [] .null (.cons [97] (.bool true) .nil))) (.list [.other, .str [97]]) .absent := by decide +kernel
+/-- str_int_digits: 2^62 -/
+example : C11.jsonStringify OttoVerif.C06.Spec.exactLib idNum 9 (.num (.fin false (2 ^ 52) 10)) .none .absent
+    ≠ Spec.jsonStringify idNum 9 (.num (.fin false (2 ^ 52) 10)) .none .absent := by decide +kernel
+/-- str_gap_bytes: seven times U+00E9 -/
+example : C11.gapOf (.str [0xE9, 0xE9, 0xE9, 0xE9, 0xE9, 0xE9, 0xE9]) ≠ Spec.gapOf (.str [0xE9, 0xE9, 0xE9, 0xE9, 0xE9, 0xE9, 0xE9]) := by decide +kernel
 
 end OttoVerif.C11.Thm
